@@ -1014,6 +1014,19 @@ static int janet_channel_push(JanetChannel *channel, Janet x, int mode) {
     return janet_channel_push_with_lock(channel, x, mode);
 }
 
+/* Check if a channel has a pending reader that is still waiting for a value, in
+ * which case a push will hand the value over and not block. Must hold the channel lock. */
+static int janet_channel_has_reader(JanetChannel *channel) {
+    JanetQueue *q = &channel->read_pending;
+    JanetChannelPending *pending = q->data;
+    /* don't dereference fibers from another thread */
+    if (janet_chan_is_threaded(channel)) return q->head != q->tail;
+    for (int32_t i = q->head; i != q->tail; i = (i + 1 < q->capacity) ? i + 1 : 0) {
+        if (pending[i].sched_id == pending[i].fiber->sched_id) return 1;
+    }
+    return 0;
+}
+
 /* Pop from a channel - returns 1 if item was obtained, 0 otherwise. The item
  * is returned by reference. If the pop would block, will add to the read_pending
  * queue in the channel. */
@@ -1184,7 +1197,7 @@ JANET_CORE_FN(cfun_channel_choice,
                 chan_unlock_args(argv, i);
                 return make_close_result(chan);
             }
-            if (janet_q_count(&chan->items) < chan->limit) {
+            if (janet_q_count(&chan->items) < chan->limit || janet_channel_has_reader(chan)) {
                 janet_channel_push_with_lock(chan, data[1], 1);
                 chan_unlock_args(argv, i);
                 return make_write_result(chan);
